@@ -6,6 +6,7 @@
 
     tgt  ∈ i8 … uint | f32 | f64 | bool | str | big
     SRC  := <intkind> <dec> | f32 <bits> <fmthex> | f64 <bits> <fmthex> | bool 0|1 | big <dec> | nil | other
+          | c128|c64 <re bits> <im bits> <math.Sqrt(re*re+im*im) bits>
           | str <hex|-> <blank 0|1> <normhex|-> <ParseInt dec|E> <ParseFloat64 bits|E> <ParseFloat32 bits|E> <SetString10 dec|E> <0x prefix 0|1> <SetString16 dec|E>
     ORACLE := <den> <d64> <d32> <srt> <bden>
        den  = Q<num>/<den> | nan | +inf | -inf | none   exact denotation (harness's own grammar; used for strings)
@@ -90,12 +91,21 @@ def Case.den (c : Case) : Den :=
   | .f64 x => ofF x
   | .bool b => .rat (if b then 1 else 0) 1
   | .str _ => c.strDen
+  | .cplx re im _ => (match im with
+    | .fin 0 _ => ofF re          -- a complex number with zero imaginary part denotes its real part
+    | _ => .none)
   | .nilptr => .none
   | .other => .none
 
 def parseSrc : List String → Option (Src × List Nat × List String)
   | "f32" :: b :: f :: rest => do let b ← b.toNat?; let f ← unhex f; pure (.f32 (F.ofBits b), f, rest)
   | "f64" :: b :: f :: rest => do let b ← b.toNat?; let f ← unhex f; pure (.f64 (F.ofBits b), f, rest)
+  | "c128" :: re :: im :: mg :: rest => do
+    let re ← re.toNat?; let im ← im.toNat?; let mg ← mg.toNat?
+    pure (.cplx (F.ofBits re) (F.ofBits im) (F.ofBits mg), [], rest)
+  | "c64" :: re :: im :: mg :: rest => do
+    let re ← re.toNat?; let im ← im.toNat?; let mg ← mg.toNat?
+    pure (.cplx (F.ofBits re) (F.ofBits im) (F.ofBits mg), [], rest)
   | "bool" :: b :: rest => if b == "1" then some (.bool true, [], rest) else if b == "0" then some (.bool false, [], rest) else none
   | "big" :: v :: rest => do let v ← v.toInt?; pure (.big v, [], rest)
   | "nil" :: rest => some (.nilptr, [], rest)
